@@ -856,6 +856,20 @@ theorem reentrant_copy_independent (P : List K → K → OmProg K V) (fuel : Nat
     (∀ (w : List (HCache K V)), j < w.length → (rhwstep P fuel w (.on i op)).1[j]? = w[j]?) :=
   ⟨fun w hj => rwstepG_others _ _ w i op j hj hne, fun w hj => rwstepG_others _ _ w i op j hj hne⟩
 
+/-- "same eviction order", observably, under a re-entrant on_miss that keeps no state of its own: whatever is
+    done to the copy and to the original from now on — the callback working on whichever cache called it —, both
+    hold the same contents in the same orders after every history and every further call returns the same result
+    (a callback WITH state may of course tell the two apart: the copy starts with an empty call history) -/
+theorem reentrant_copy_behaves_like_source (c : Cache K V) (P0 : K → OmProg K V) (fuel : Nat) (ops : List (Op K V)) :
+    (Cache.mach.rrun (fun _ => P0) fuel c.copied ops).d = (Cache.mach.rrun (fun _ => P0) fuel c ops).d ∧
+    (Cache.mach.rrun (fun _ => P0) fuel c.copied ops).ring = (Cache.mach.rrun (fun _ => P0) fuel c ops).ring ∧
+    ∀ op, (Cache.mach.rstep (fun _ => P0) fuel (Cache.mach.rrun (fun _ => P0) fuel c.copied ops) op).2.shape =
+          (Cache.mach.rstep (fun _ => P0) fuel (Cache.mach.rrun (fun _ => P0) fuel c ops) op).2.shape := by
+  have h := (SameCore.copied c).rrun P0 fuel ops
+  refine ⟨h.d, h.ring, fun op => ?_⟩
+  rw [Cache.rstep_noLog]
+  exact (SameCore.mach.rstep (fun _ => P0) fuel (n := 0) h op).2.shape_eq
+
 /-- one public call with a re-entrant on_miss keeps the representation invariant (so: size bound, no
     duplicate link, dict = ring as mappings), at any depth, also when the callback raises half-way -/
 theorem reentrant_step_inv {c : Cache K V} (hi : Inv c) (P : List K → K → OmProg K V) (fuel : Nat) (op : Op K V) :
